@@ -23,11 +23,20 @@ class SigchldHelper:
     @contextlib.contextmanager
     def track(self):
         self._read_pipe, self._write_pipe = os.pipe()
+        # N.B. The Python-level handler below only runs once the main thread
+        # is back in the interpreter loop. A SIGCHLD that arrives right
+        # before `wait()` blocks in `os.read()` would therefore not wake it
+        # up. Having the C-level handler write to the pipe closes that window.
+        os.set_blocking(self._write_pipe, False)
+        existing_wakeup_fd = signal.set_wakeup_fd(
+            self._write_pipe, warn_on_full_buffer=False
+        )
         existing_handler = signal.signal(signal.SIGCHLD, SigchldHelper._handler)
         try:
             yield
         finally:
             signal.signal(signal.SIGCHLD, existing_handler)
+            signal.set_wakeup_fd(existing_wakeup_fd)
             os.close(self._write_pipe)
             os.close(self._read_pipe)
             self._returncodes.clear()
@@ -35,12 +44,14 @@ class SigchldHelper:
             self._read_pipe = None
 
     def wait(self) -> Tuple[int, int]:
-        _ = os.read(self._read_pipe, 1)
+        # A byte in the pipe stands for a delivered signal. The return codes
+        # are recorded by `_handler()`, which runs as soon as the read returns.
+        while len(self._returncodes) == 0:
+            _ = os.read(self._read_pipe, 4096)
         return self._extract_any()
 
     def _add_returncode(self, pid: int, returncode: int) -> None:
         self._returncodes.append((pid, returncode))
-        os.write(self._write_pipe, b"\0")
 
     def _extract_any(self) -> Tuple[int, int]:
         # Precondition: `self._returncodes` must be non-empty.
